@@ -146,3 +146,35 @@ def all_cases(seed, n_random, opts=None, values_per_schema=4):
         yield j, node, env, vals, 'boundary'
     for j, node, env, vals in random_cases(seed, n_random, opts, values_per_schema):
         yield j, node, env, vals, 'random'
+
+
+def name_resolution_cases():
+    """schemas in which the same simple name exists in several namespaces and is referred to by simple and by full name,
+    also recursively (the specification: an unqualified reference takes the namespace of the most tightly enclosing named type)"""
+    def rec(name, fields, **kw):
+        d = {'type': 'record', 'name': name, 'fields': [{'name': n, 'type': t} for n, t in fields]}
+        d.update(kw)
+        return d
+    out = []
+    # a null-namespace Node, then list.Node referring to itself by its simple name
+    out.append([rec('Node', [('v', 'int')]), rec('Node', [('v', 'long'), ('next', ['null', 'Node'])], namespace='list')])
+    out.append(rec('Top', [('plain', rec('Node', [('v', 'int')])),
+                           ('linked', rec('Node', [('v', 'long'), ('next', ['null', 'Node']), ('kids', {'type': 'array', 'items': 'Node'})], namespace='list')),
+                           ('again', 'Node'), ('again2', 'list.Node')]))
+    # inherited namespace vs dotted name, both called Node
+    out.append(rec('Outer', [('n1', rec('Node', [('v', 'int')])),
+                             ('inner', rec('b.Node', [('next', ['null', 'Node']), ('other', 'a.Node'), ('m', {'type': 'map', 'values': 'b.Node'})])),
+                             ('back', 'Node'), ('far', 'b.Node')], namespace='a'))
+    # fixed F in the null namespace and n.F, referenced by simple name from inside n
+    out.append(rec('T', [('a', {'type': 'fixed', 'name': 'F', 'size': 2}),
+                         ('b', rec('Holder', [('f', {'type': 'fixed', 'name': 'F', 'size': 3}), ('g', 'F'), ('h', 'n.F')], namespace='n')),
+                         ('c', 'F')]))
+    # mutual recursion across namespaces with self references by simple name
+    out.append(rec('A', [('b', ['null', rec('q.B', [('a', ['null', 'p.A']), ('self', ['null', 'B']), ('e', {'type': 'enum', 'name': 'A', 'symbols': ['X']}), ('e2', 'A')])]),
+                         ('me', ['null', 'A'])], namespace='p'))
+    # enum of the same simple name at three levels
+    out.append(rec('R', [('e0', {'type': 'enum', 'name': 'E', 'symbols': ['A']}),
+                         ('r1', rec('R1', [('e1', {'type': 'enum', 'name': 'E', 'symbols': ['B']}), ('u1', 'E'),
+                                           ('r2', rec('R2', [('e2', {'type': 'enum', 'name': 'E', 'symbols': ['C']}), ('u2', 'E'), ('u1', 'x.E')], namespace='x.y'))], namespace='x')),
+                         ('u0', 'E')]))
+    return out
